@@ -68,7 +68,7 @@ def select(lst, i):
             return 0        # out-of-range positions are only evaluated under a false guard (bounds are side obligations at index time)
         return lst[i]
     if not lst:
-        raise PyRaise('IndexError', 'index into empty array')
+        return 0            # empty array: any read is under a false guard
     r = lst[-1]
     for k in range(len(lst) - 2, -1, -1):
         r = ite(i == k, lst[k], r)
@@ -250,12 +250,27 @@ class Arr(ArrBase):
         return self._fn
 
     def update(self, cond, val):
-        """pointwise in-place write: new(idx) = val(idx) if cond(idx) else old(idx); cond None = everywhere"""
+        """pointwise in-place write: new(idx) = val(idx) if cond(idx) else old(idx); cond None = everywhere.
+        Stores into an integer array truncate toward zero, as numpy's same-kind cast does"""
         old = self._fn
+        if self.dtype == 'int':
+            _v = val
+
+            def val(*idx):
+                x = _v(*idx)
+                g = _generic(x)
+                if isinstance(g, int) or (isinstance(g, SV) and (g.is_int or g.is_bool)):
+                    return x
+                return sym.trunc_int(x)
         if cond is None:
             self._fn = memo(val)
         else:
-            self._fn = memo(lambda *idx: ite(cond(*idx), val(*idx), old(*idx)))
+            def newfn(*idx):
+                c = _generic(cond(*idx))
+                if isinstance(c, (bool, int)):
+                    return val(*idx) if c else old(*idx)       # do not evaluate the unselected side (it may be undefined there)
+                return ite(c, val(*idx), old(*idx))
+            self._fn = memo(newfn)
         self.version += 1
 
     def __repr__(self):
@@ -311,6 +326,11 @@ class View(ArrBase):
         return 'View(%r, %s)' % (self.base, self.shape)
 
 
+class MShape(tuple):
+    """shape of a masked copy: np.ones / np.zeros of it give a constant masked copy for the same mask"""
+    masked = None
+
+
 class Masked(object):
     """a[mask] read: compressed copy of unknown length.  Supports same-mask arithmetic, len()==0,
     any/all, amax/amin/sum (DESIGN 2.3).  `n` is the length (1-d source) or the shape tuple (n-d source)."""
@@ -347,7 +367,9 @@ class Masked(object):
 
     @property
     def shape(self):
-        return (self.sym_len(),) if self.nd == 1 else (self.count(),)
+        s = MShape(((self.sym_len(),) if self.nd == 1 else (self.count(),)))
+        s.masked = self
+        return s
 
     @property
     def ndim(self):
@@ -870,6 +892,8 @@ class Opaque(object):
 
 
 def _shape_arg(s):
+    if isinstance(s, MShape):
+        return s
     if isinstance(s, (tuple, list)):
         return tuple(_generic(x) for x in s)
     return (_generic(s),)
@@ -913,16 +937,24 @@ class _NP(object):
 
     # --- constructors
     def zeros(self, shape, dtype=None):
+        if isinstance(shape, MShape):
+            m = shape.masked
+            return Masked(m.n, memo(lambda *i: 0), m.mask, m.maskobj, 'real')
         return Arr(_shape_arg(shape), lambda *idx: 0, 'real' if dtype in (None, float) else 'int')
 
     def ones(self, shape, dtype=None):
+        if isinstance(shape, MShape):
+            m = shape.masked
+            return Masked(m.n, memo(lambda *i: 1), m.mask, m.maskobj, 'real')
         return Arr(_shape_arg(shape), lambda *idx: 1, 'real' if dtype in (None, float) else 'int')
 
     def zeros_like(self, a, dtype=None):
-        return Arr(to_arr(a).shape, lambda *idx: 0, 'real')
+        a = to_arr(a)
+        return Arr(a.shape, lambda *idx: 0, a.dtype if dtype is None and a.dtype in ('int', 'real') else ('real' if dtype in (None, float) else 'int'))
 
     def ones_like(self, a, dtype=None):
-        return Arr(to_arr(a).shape, lambda *idx: 1, 'real')
+        a = to_arr(a)
+        return Arr(a.shape, lambda *idx: 1, a.dtype if dtype is None and a.dtype in ('int', 'real') else ('real' if dtype in (None, float) else 'int'))
 
     def full(self, shape, v, dtype=None):
         return Arr(_shape_arg(shape), lambda *idx: v, _dtype_of(v))
@@ -1025,6 +1057,8 @@ class _NP(object):
             c = CTX()
             if getattr(c, 'replay', False) or not c.side_on:
                 return
+            if any(dim_conc(d) and d == 0 for d in x.shape):
+                return            # empty array: nothing is computed
             idx = [c.fresh('d', 'int') for _ in x.shape]
             inb = sym.and_(*[sym.and_(i >= 0, sym.cmp('<', i, d)) for i, d in zip(idx, x.shape)])
             c.prove('side:' + name, sym.implies(inb, pred(x.get(*idx))), kind='side', inst=idx)
